@@ -1119,6 +1119,8 @@ def run(ctx):
         if 'c' in only:
             s2c_folds(ctx, report, ctx.generate(*gens[3]), 3000 if q else 40000)
             s2c_fold_histories(ctx, report, ctx.generate(*gens[4]), 1500 if q else 20000)
+            if not q:       # deeper histories of one object: seeded simulation of the same machine (six calls each)
+                s2c_fold_histories(ctx, report, ctx.generate('MC_FramesFold', 'MC_FramesFold_genobj_sim.cfg', simulate=60, depth=7, seed=ctx.seed + 1, workers=1), 0)     # (the last step is exhaustive over the enabled calls)
     k = 1 if q else 10
     c2s(ctx, report, 1500 * k * ('a' in only), 500 * k * ('b' in only), 150 * k * ('b' in only), 500 * k * ('c' in only), 100 * k * ('c' in only))
     ctx.extra['violation_signatures'] = report.summary()
